@@ -8,6 +8,11 @@ import PygModel.Waiter
 import PygProofs.Lemmas.LiftLemmas
 import PygProofs.Lemmas.ZipLemmas
 import PygProofs.Lemmas.WaiterLemmas
+import PygModel.LiftX
+import PygModel.Txt
+import PygProofs.Lemmas.LiftXLemmas
+import PygModel.WaiterF
+import PygProofs.Lemmas.WaiterFLemmas
 
 namespace Pyg.Props.C19
 open Pyg
@@ -653,5 +658,574 @@ example :
   refine ⟨?_, by decide +kernel, by decide +kernel⟩
   show [2, 0, 1].Perm [0, 1, 2]
   exact (List.Perm.swap 0 2 [1]).trans (List.Perm.cons 0 (List.Perm.swap 1 2 []))
+
+/-! ## MODEL EXTENSION — beyond the property text ("any nesting of lists, tuples and dicts")
+
+`wrappedX T f` (PygModel/LiftX.lean) models `loops(types = T)._wrapped` with ALL its branches: dict subclasses
+(class tag), Series, DataFrame (by column or, with `axis`, by row), 2-d ndarray (by its last axis), and the pandas /
+numpy branches of the companion selection.  The property text does not speak of these: a disagreement of the real
+code with the theorems below is a DIVERGENCE, not a violation — unless it is about plain lists / tuples / dicts,
+where `liftx_refines` makes the extended model coincide with the model of the statement. -/
+
+/-- **Refinement.** On plain values (lists, tuples, `dict`s, cells) the extended model, for ANY type set holding
+list, tuple and dict (`loop(list, tuple, dict)`, `loops(types = (list, tuple, dict))`, `loop_all`), is the model
+`wrapped` that the theorems of the statement are about. -/
+theorem liftx_refines (T : LoopTypes) (f' : XLeafFn) (f : LeafFn) (hl : T.list = true) (ht : T.tuple = true)
+    (hd : T.dicts.contains 0 = true) (hf : Extends f' f) (v : Val) (args : List Val) (kw : KW) :
+    wrappedX T f' v.emb (Val.embList args) (Val.embKVs kw) = (wrapped f v args kw).map Val.emb :=
+  wrappedX_embed_aux T f' f hl ht hd hf v args kw
+
+/-- the three decorators of the library satisfy the hypotheses, and the recording functions of the two drivers are
+related by `Extends` up to the record constructor (non-vacuity: the identity leaf) -/
+example : Extends identX (fun a _ _ => .ok a) := by intro a args kw; simp [identX, Except.map]
+example : LoopTypes.ltd.list = true ∧ LoopTypes.ltd.tuple = true ∧ LoopTypes.ltd.dicts.contains 0 = true ∧
+    LoopTypes.ltdPlain.dicts.contains 0 = true ∧ LoopTypes.all.dicts.contains 0 = true := by decide
+
+/-- `loops.wrapped` (first argument positional or by keyword) refines too -/
+theorem liftx_call_refines (T : LoopTypes) (f' : XLeafFn) (f : LeafFn) (hl : T.list = true) (ht : T.tuple = true)
+    (hd : T.dicts.contains 0 = true) (hf : Extends f' f) (top : String) (args : List Val) (kw : KW) :
+    callLiftedX T f' top (Val.embList args) (Val.embKVs kw) = (callLifted f top args kw).map Val.emb := by
+  have htop : ∀ (v : Val) (as : List Val) (k : KW),
+      topX T f' v.emb (Val.embList as) (Val.embKVs k) = (wrapped f v as k).map Val.emb := by
+    intro v as k
+    have := wrappedX_embed_aux T f' f hl ht hd hf v as k
+    cases v <;> simpa [topX, Val.emb] using this
+  cases args with
+  | cons a rest => simpa [callLiftedX, callLifted, Val.embList] using htop a rest kw
+  | nil =>
+    have hlk : (Val.embKVs kw).lookup top = (kw.lookup top).map Val.emb := by
+      induction kw with
+      | nil => simp [Val.embKVs]
+      | cons p kw ih =>
+        obtain ⟨k, v⟩ := p
+        by_cases hk : top = k
+        · subst hk; simp [Val.embKVs, List.lookup]
+        · have : (top == k) = false := by simpa using hk
+          simp [Val.embKVs, List.lookup, this, ih]
+    have hfl : (Val.embKVs kw).filter (fun p => p.1 != top) = Val.embKVs (kw.filter fun p => p.1 != top) := by
+      simp [embKVs_eq_map, List.filter_map, Function.comp_def]
+    simp only [callLiftedX, callLifted, Val.embList, hlk]
+    cases h : kw.lookup top with
+    | none => simp [Except.map]
+    | some v =>
+      simp only [Option.map, hfl]
+      have := htop v [] (kw.filter fun p => p.1 != top)
+      simpa [Val.embList] using this
+
+/-- **Compositionality of the extended model**: the result at any position `p` (a path through containers that
+`T` loops over) is the lifted call on the sub-structure at `p` with the selected companions; `axis` is consumed by
+the outermost level (`kwAt`). -/
+theorem liftx_sub (T : LoopTypes) (f : XLeafFn) : ∀ (p : Path) (v : XVal) (args : List XVal) (kw : XKW) (r v' : XVal),
+    wrappedX T f v args kw = .ok r → v.atT T p = some v' →
+    ∃ r', r.atT T p = some r' ∧
+      wrappedX T f v' (args.map (selectX T v p)) (mapXKW (selectX T v p) (kwAt p kw)) = .ok r'
+  | [], v, args, kw, r, v', h, hp => by
+      simp [XVal.atT] at hp
+      subst hp
+      refine ⟨r, by simp [XVal.atT], ?_⟩
+      have : (selectX T v []) = fun c => c := by funext c; simp [selectX]
+      rw [this, mapXKW_id, List.map_id']
+      exact h
+  | s :: p, v, args, kw, r, v', h, hp => by
+      simp only [XVal.atT] at hp
+      split at hp
+      case h_2 => cases hp
+      case h_1 c hc =>
+      have hsel : ∀ g : XVal → XVal, (∀ x, g x = selStepX v s x) →
+          (selectX T v (s :: p)) = (selectX T c p) ∘ g := by
+        intro g hg; funext x; simp [selectX, hc, hg]
+      have hkw : ∀ (g : XVal → XVal), mapXKW (selectX T c p) (kwAt p (mapXKW g (dropAxisX kw)))
+          = mapXKW (selectX T c p) (mapXKW g (dropAxisX kw)) := by
+        intro g
+        cases p with
+        | nil => rfl
+        | cons _ _ => simp [kwAt, dropAxisX_mapXKW, dropAxisX_idem]
+      cases v with
+      | cell a => simp [XVal.childT] at hc
+      | obj a => simp [XVal.childT] at hc
+      | arr1 a => simp [XVal.childT] at hc
+      | arr2 a b => simp [XVal.childT] at hc
+      | ser a b => simp [XVal.childT] at hc
+      | frame a b c => simp [XVal.childT] at hc
+      | list xs =>
+        cases s with
+        | key k => simp [XVal.childT] at hc
+        | idx i =>
+          simp only [XVal.childT] at hc
+          split at hc
+          case isFalse => cases hc
+          case isTrue hl =>
+          rw [wrappedX] at h
+          simp only [hl, if_true] at h
+          split at h
+          · cases h
+          · rename_i ys hys
+            cases h
+            obtain ⟨_, hget⟩ := wrappedXSeq_get xs 0 args (dropAxisX kw) ys hys
+            obtain ⟨y, hy1, hy2⟩ := hget i c hc
+            obtain ⟨r', hr1, hr2⟩ := liftx_sub T f p c _ _ y v' hy2 hp
+            refine ⟨r', by simp [XVal.atT, XVal.childT, hl, hy1, hr1], ?_⟩
+            rw [hsel (itemByIX i xs.length) (by intro x; simp [selStepX])]
+            rw [← mapXKW_mapXKW, ← List.map_map]
+            rw [hkw] at hr2
+            simpa [kwAt] using hr2
+      | tuple xs =>
+        cases s with
+        | key k => simp [XVal.childT] at hc
+        | idx i =>
+          simp only [XVal.childT] at hc
+          split at hc
+          case isFalse => cases hc
+          case isTrue hl =>
+          rw [wrappedX] at h
+          simp only [hl, if_true] at h
+          split at h
+          · cases h
+          · rename_i ys hys
+            cases h
+            obtain ⟨_, hget⟩ := wrappedXSeq_get xs 0 args (dropAxisX kw) ys hys
+            obtain ⟨y, hy1, hy2⟩ := hget i c hc
+            obtain ⟨r', hr1, hr2⟩ := liftx_sub T f p c _ _ y v' hy2 hp
+            refine ⟨r', by simp [XVal.atT, XVal.childT, hl, hy1, hr1], ?_⟩
+            rw [hsel (itemByIX i xs.length) (by intro x; simp [selStepX])]
+            rw [← mapXKW_mapXKW, ← List.map_map]
+            rw [hkw] at hr2
+            simpa [kwAt] using hr2
+      | dict cls kvs =>
+        cases s with
+        | idx i => simp [XVal.childT] at hc
+        | key k =>
+          simp only [XVal.childT] at hc
+          split at hc
+          case isFalse => cases hc
+          case isTrue hl =>
+          rw [wrappedX] at h
+          simp only [hl, if_true] at h
+          split at h
+          · cases h
+          · rename_i ys hys
+            cases h
+            obtain ⟨_, hget⟩ := wrappedXKVs_lookup kvs args (dropAxisX kw) ys hys
+            obtain ⟨y, hy1, hy2⟩ := hget k c hc
+            obtain ⟨r', hr1, hr2⟩ := liftx_sub T f p c _ _ y v' hy2 hp
+            have hl' : cls ∈ T.dicts := by simpa using hl
+            refine ⟨r', by simp [XVal.atT, XVal.childT, hl', hy1, hr1], ?_⟩
+            rw [hsel (itemByKeyX k (sortStr (xkeysOf kvs)) Option.none) (by intro x; simp [selStepX])]
+            rw [← mapXKW_mapXKW, ← List.map_map]
+            rw [hkw] at hr2
+            simpa [kwAt] using hr2
+
+/-- **Dict subclasses keep their class** (`type(arg)(res)`, _loop.py:211): wherever the argument holds a dict of a
+class the decorator loops over — for the `loop` factory that is `dict`, `Dict`, `dictattr`, `OrderedDict` — the
+result holds a dict of the SAME class with the same keys in the same order. -/
+theorem lift_keeps_class (T : LoopTypes) (f : XLeafFn) (v : XVal) (args : List XVal) (kw : XKW) (r : XVal) (p : Path)
+    (cls : Nat) (kvs : XKW) (h : wrappedX T f v args kw = .ok r) (hp : v.atT T p = some (.dict cls kvs))
+    (hc : T.dicts.contains cls = true) :
+    ∃ rs, r.atT T p = some (.dict cls rs) ∧ xkeysOf rs = xkeysOf kvs := by
+  obtain ⟨r', h1, h2⟩ := liftx_sub T f p v args kw r _ h hp
+  rw [wrappedX] at h2
+  simp only [hc, if_true] at h2
+  split at h2
+  · cases h2
+  · rename_i ys hys
+    cases h2
+    exact ⟨ys, h1, (wrappedXKVs_lookup kvs _ _ ys hys).1⟩
+
+/-- … lists stay lists and tuples stay tuples, of the same length (the extended model keeps the shape clauses) … -/
+theorem liftx_shape_seq (T : LoopTypes) (f : XLeafFn) (v : XVal) (args : List XVal) (kw : XKW) (r : XVal) (p : Path)
+    (xs : List XVal) (h : wrappedX T f v args kw = .ok r) :
+    (T.list = true → v.atT T p = some (.list xs) → ∃ ys, r.atT T p = some (.list ys) ∧ ys.length = xs.length) ∧
+    (T.tuple = true → v.atT T p = some (.tuple xs) → ∃ ys, r.atT T p = some (.tuple ys) ∧ ys.length = xs.length) := by
+  constructor
+  · intro hl hp
+    obtain ⟨r', h1, h2⟩ := liftx_sub T f p v args kw r _ h hp
+    rw [wrappedX] at h2
+    simp only [hl, if_true] at h2
+    split at h2
+    · cases h2
+    · rename_i ys hys
+      cases h2
+      exact ⟨ys, h1, (wrappedXSeq_get xs 0 _ _ ys hys).1⟩
+  · intro hl hp
+    obtain ⟨r', h1, h2⟩ := liftx_sub T f p v args kw r _ h hp
+    rw [wrappedX] at h2
+    simp only [hl, if_true] at h2
+    split at h2
+    · cases h2
+    · rename_i ys hys
+      cases h2
+      exact ⟨ys, h1, (wrappedXSeq_get xs 0 _ _ ys hys).1⟩
+
+/-- **Leaves of the extended model**: a value the decorator does not loop over — in particular a dict of a class
+that is not among the looped types (a user subclass, `defaultdict`; every subclass for `loops(types = (…, dict))`
+used without the factory) — is handed to `f` WHOLE, with the selected companions. -/
+theorem liftx_leaves (T : LoopTypes) (f : XLeafFn) (v : XVal) (args : List XVal) (kw : XKW) (r : XVal) (p : Path)
+    (v' : XVal) (h : wrappedX T f v args kw = .ok r) (hp : v.atT T p = some v') (hleaf : v'.leafFor T = true) :
+    ∃ y, f v' (args.map (selectX T v p)) (mapXKW (selectX T v p) (dropAxisX kw)) = .ok y ∧ r.atT T p = some y := by
+  obtain ⟨r', h1, h2⟩ := liftx_sub T f p v args kw r _ h hp
+  refine ⟨r', ?_, h1⟩
+  have hk : dropAxisX (kwAt p kw) = dropAxisX kw := by
+    cases p <;> simp [kwAt, dropAxisX_idem]
+  cases v' <;> simp_all [wrappedX, XVal.leafFor, dropAxisX_mapXKW]
+
+/-- the factory (`_dict.py:163-173`): `loop(list, tuple, dict)` loops over `Dict`, `dictattr` and `OrderedDict` too and
+keeps their class; `loops(types = (list, tuple, dict))` and user subclasses: leaves -/
+theorem loop_factory_classes :
+    (∀ cls, LoopTypes.ltd.dicts.contains cls = true ↔ cls = 0 ∨ cls = 1 ∨ cls = 2 ∨ cls = 3) ∧
+    (∀ cls, LoopTypes.ltdPlain.dicts.contains cls = true ↔ cls = 0) ∧
+    LoopTypes.all.dicts = LoopTypes.ltd.dicts := by
+  refine ⟨?_, ?_, rfl⟩
+  · intro cls; simp [LoopTypes.ltd]; omega
+  · intro cls; simp [LoopTypes.ltdPlain]
+
+/-- non-vacuity of `lift_keeps_class` / `liftx_leaves`: `[Dict(b = 1, a = MyDict(x = 2))]` -/
+example :
+    let v : XVal := .list [.dict 1 [("b", .cell (.int 1)), ("a", .dict 4 [("x", .cell (.int 2))])]]
+    v.atT .ltd [.idx 0] = some (.dict 1 [("b", .cell (.int 1)), ("a", .dict 4 [("x", .cell (.int 2))])]) ∧
+      v.atT .ltd [.idx 0, .key "a"] = some (.dict 4 [("x", .cell (.int 2))]) ∧
+      (XVal.dict 4 [("x", .cell (.int 2))]).leafFor .ltd = true ∧ v.atT .ltd [.idx 0, .key "a", .key "x"] = Option.none := by
+  refine ⟨?_, ?_, ?_, ?_⟩ <;> rfl
+
+/-! ### Series, DataFrame, ndarray as the looped argument -/
+
+/-- **A Series that is not a timeseries is looped by label** (`loops.wrapped`, top level only): the result is a
+Series with the same labels in the same order whose value at label `k` is the lifted call on the value at `k`, with
+the companions selected BY KEY (`_item_by_key` without a position). -/
+theorem liftx_series (T : LoopTypes) (f : XLeafFn) (top : String) (ks : List String) (xs args : List XVal) (kw : XKW)
+    (r : XVal) (hT : T.series = true) (hwf : ks.length = xs.length)
+    (h : callLiftedX T f top (.ser ks xs :: args) kw = .ok r) :
+    ∃ ys, r = .ser ks ys ∧ ys.length = xs.length ∧ ∀ (j : Nat) (k : String) (x : XVal), ks[j]? = some k → xs[j]? = some x →
+      ∃ y, ys[j]? = some y ∧
+        wrappedX T f x (args.map (itemByKeyX k (sortStr ks) Option.none))
+          (mapXKW (itemByKeyX k (sortStr ks) Option.none) kw) = .ok y := by
+  simp only [callLiftedX, topX, hT, if_true] at h
+  split at h
+  · cases h
+  · rename_i ys hys
+    cases h
+    obtain ⟨h1, h2⟩ := serCalls_get ks xs args kw ys hwf hys
+    exact ⟨ys, rfl, h1, h2⟩
+
+/-- below the top level (and when `pd.Series` is not among the types) a Series is a leaf -/
+theorem liftx_series_leaf (T : LoopTypes) (f : XLeafFn) (ks : List String) (xs args : List XVal) (kw : XKW) :
+    wrappedX T f (.ser ks xs) args kw = f (.ser ks xs) args (dropAxisX kw) := by
+  simp [wrappedX]
+
+/-- every leaf call returns an opaque object (the recording function does) -/
+def OpaqueResults (f : XLeafFn) : Prop := ∀ a args kw y, f a args kw = .ok y → y.isObj = true
+
+theorem all_isObj_of_get {ys : List XVal} (h : ∀ (j : Nat) (y : XVal), ys[j]? = some y → y.isObj = true) : ys.all XVal.isObj = true := by
+  rw [List.all_eq_true]
+  intro y hy
+  obtain ⟨j, hj⟩ := List.getElem?_of_mem hy
+  exact h j y hj
+
+/-- **A DataFrame is looped by column** (`axis` absent or not 1 / -1): one leaf call per column, in column order,
+on the column as a Series; companions selected by the column LABEL and its POSITION.  With a function that returns
+opaque results the result is a Series labelled by the columns. -/
+theorem liftx_frame_by_column (T : LoopTypes) (f : XLeafFn) (idx cols : List String) (rows : List (List Cell))
+    (args : List XVal) (kw : XKW) (r : XVal) (hT : T.frame = true) (hax : axisIs1 kw = false) (hne : cols ≠ [])
+    (hf : OpaqueResults f) (h : wrappedX T f (.frame idx cols rows) args kw = .ok r) :
+    ∃ ys, r = .ser cols ys ∧ ys.length = cols.length ∧ ∀ (j : Nat) (c : String), cols[j]? = some c →
+      ∃ y, ys[j]? = some y ∧
+        f (frameCol idx rows j) (args.map (itemByKeyX c (sortStr cols) (some j)))
+          (mapXKW (itemByKeyX c (sortStr cols) (some j)) (dropAxisX kw)) = .ok y := by
+  simp only [wrappedX, hT, if_true, hax, loopFrame, Bool.false_eq_true, if_false] at h
+  split at h
+  · cases h
+  · split at h
+    · cases h
+    · rename_i ys hys
+      obtain ⟨h1, h2⟩ := frameCalls_get cols 0 args (dropAxisX kw) ys hys
+      have hobj : ys.all XVal.isObj = true := by
+        apply all_isObj_of_get
+        intro j y hj
+        have hlt : j < cols.length := by
+          have := (List.getElem?_eq_some_iff.1 hj).1; omega
+        obtain ⟨y', hy1, hy2⟩ := h2 j cols[j] (List.getElem?_eq_getElem hlt)
+        rw [hj] at hy1; cases hy1
+        exact hf _ _ _ _ hy2
+      have hemp : ys.isEmpty = false := by
+        cases ys with
+        | nil => cases cols with
+          | nil => exact absurd rfl hne
+          | cons _ _ => simp at h1
+        | cons _ _ => rfl
+      simp only [toFrame, hemp, hobj, if_true] at h
+      cases h
+      refine ⟨ys, rfl, h1, ?_⟩
+      intro j c hc
+      obtain ⟨y, hy1, hy2⟩ := h2 j c hc
+      exact ⟨y, hy1, by simpa [frameCol] using hy2⟩
+
+/-- **… or by row** (`axis = 1` or `-1`): the frame AND every companion are transposed (`loops.T`), the rows are
+looped like columns, and the result is labelled by the index. -/
+theorem liftx_frame_by_row (T : LoopTypes) (f : XLeafFn) (idx cols : List String) (rows : List (List Cell))
+    (args : List XVal) (kw : XKW) (r : XVal) (hT : T.frame = true) (hax : axisIs1 kw = true) (hne : idx ≠ [])
+    (hf : OpaqueResults f) (h : wrappedX T f (.frame idx cols rows) args kw = .ok r) :
+    ∃ ys, r = .ser idx ys ∧ ys.length = idx.length ∧ ∀ (j : Nat) (i : String), idx[j]? = some i →
+      ∃ y, ys[j]? = some y ∧
+        f (frameCol cols (transposeRows cols.length rows) j) ((args.map tX).map (itemByKeyX i (sortStr idx) (some j)))
+          (mapXKW (itemByKeyX i (sortStr idx) (some j)) (mapXKW tX (dropAxisX kw))) = .ok y := by
+  simp only [wrappedX, hT, if_true, hax, loopFrameT] at h
+  split at h
+  · cases h
+  · rename_i r0 hr0
+    cases h
+    have hw : wrappedX T f (.frame cols idx (transposeRows cols.length rows)) (tXList args) (tXKVs (dropAxisX kw)) = .ok r0 := by
+      simp only [wrappedX, hT, if_true]
+      have : axisIs1 (tXKVs (dropAxisX kw)) = false := by
+        rw [tXKVs_eq_map, ← dropAxisX_mapXKW]; exact axisIs1_dropAxisX _
+      simp only [this]
+      have e : dropAxisX (tXKVs (dropAxisX kw)) = tXKVs (dropAxisX kw) := by
+        rw [tXKVs_eq_map, dropAxisX_mapXKW, dropAxisX_idem]
+      rw [e]; exact hr0
+    have hax0 : axisIs1 (tXKVs (dropAxisX kw)) = false := by
+      rw [tXKVs_eq_map, ← dropAxisX_mapXKW]; exact axisIs1_dropAxisX _
+    obtain ⟨ys, rfl, h1, h2⟩ := liftx_frame_by_column T f cols idx _ _ _ r0 hT hax0 hne hf hw
+    refine ⟨ys, by simp [tX, relabel, h1], h1, ?_⟩
+    intro j i hi
+    obtain ⟨y, hy1, hy2⟩ := h2 j i hi
+    refine ⟨y, hy1, ?_⟩
+    rw [tXList_eq_map, tXKVs_eq_map, dropAxisX_mapXKW, dropAxisX_idem] at hy2
+    exact hy2
+
+/-- **A 2-d ndarray is looped by its last axis**: one leaf call per column, on the column as a 1-d array (for a
+one-column array: on the squeezed column, see `itemByIX`), companions selected BY POSITION with `_item_by_i`; with
+opaque results the result is a 1-d array of them.  A 1-d array is a leaf. -/
+theorem liftx_array_by_column (T : LoopTypes) (f : XLeafFn) (nc : Nat) (rows : List (List Cell))
+    (args : List XVal) (kw : XKW) (r : XVal) (hT : T.array = true) (hax : axisIs1 kw = false)
+    (hf : OpaqueResults f) (h : wrappedX T f (.arr2 nc rows) args kw = .ok r) :
+    ∃ ys, r = .arr1 ys ∧ ys.length = nc ∧ ∀ j, j < nc →
+      ∃ y, ys[j]? = some y ∧
+        f (itemByIX j nc (.arr2 nc rows)) (args.map (itemByIX j nc)) (mapXKW (itemByIX j nc) (dropAxisX kw)) = .ok y := by
+  simp only [wrappedX, hT, if_true, hax, loopArr, Bool.false_eq_true, if_false] at h
+  split at h
+  · cases h
+  · rename_i ys hys
+    obtain ⟨h1, h2⟩ := arrCalls_get nc 0 args (dropAxisX kw) ys hys
+    have hobj : ys.all XVal.isObj = true := by
+      apply all_isObj_of_get
+      intro j y hj
+      have hlt : j < nc := by
+        have := (List.getElem?_eq_some_iff.1 hj).1; omega
+      obtain ⟨y', hy1, hy2⟩ := h2 j hlt
+      rw [hj] at hy1; cases hy1
+      exact hf _ _ _ _ hy2
+    simp only [toArr, hobj, if_true] at h
+    cases h
+    refine ⟨ys, rfl, h1, ?_⟩
+    intro j hj
+    obtain ⟨y, hy1, hy2⟩ := h2 j hj
+    exact ⟨y, hy1, by simpa using hy2⟩
+
+theorem liftx_array_column (nc : Nat) (rows : List (List Cell)) (j : Nat) (h : nc ≠ 1) :
+    itemByIX j nc (.arr2 nc rows) = .arr1 (colOf rows j) := by
+  simp [itemByIX, h]
+
+theorem liftx_array1_leaf (T : LoopTypes) (f : XLeafFn) (xs args : List XVal) (kw : XKW) :
+    wrappedX T f (.arr1 xs) args kw = f (.arr1 xs) args (dropAxisX kw) := by
+  simp [wrappedX]
+
+/-- the recording function returns opaque results; non-vacuity of the three theorems above on a 2x2 frame -/
+theorem recorderX_opaque : OpaqueResults recorderX := by
+  intro a args kw y h
+  simp only [recorderX] at h
+  split at h
+  · split at h
+    · cases h
+    · split at h
+      · cases h
+      · split at h
+        · cases h
+        · cases h; rfl
+  · cases h; rfl
+
+/-- the hypotheses of the three theorems are satisfiable (the recording function, `loop_all`, `axis = 1`); concrete
+evaluations of the model are what the correspondence run compares with pandas / numpy -/
+example : OpaqueResults recorderX ∧ axisIs1 [("axis", .cell (.int 1))] = true ∧ axisIs1 [("b", .cell (.int 1))] = false ∧
+    LoopTypes.all.frame = true ∧ LoopTypes.all.array = true ∧ LoopTypes.all.series = true :=
+  ⟨recorderX_opaque, rfl, rfl, rfl, rfl, rfl⟩
+
+/-! ### companion selection: pandas / numpy companions of the looped length are INDEXED, not broadcast -/
+
+/-- `_item_by_i`: a 1-d array or a (non-timeseries) Series of the looped length gives its `i`-th element, a 2-d
+array / DataFrame with that many columns (and more than one) its `i`-th column — for a looped list or tuple just
+as for a looped array … -/
+theorem sel_by_position_indexed (i n : Nat) (xs : List XVal) (ks idx cols : List String) (nc : Nat)
+    (rows : List (List Cell)) (hx : xs.length = n) (hnc : nc = n) (hcols : cols.length = n) (h1 : n ≠ 1) :
+    itemByIX i n (.arr1 xs) = xgetIdx xs i ∧ itemByIX i n (.ser ks xs) = xgetIdx xs i ∧
+    itemByIX i n (.arr2 nc rows) = .arr1 (colOf rows i) ∧
+    itemByIX i n (.frame idx cols rows) = .ser idx (colOf rows i) := by
+  subst hnc
+  simp [itemByIX, hx, hcols, h1]
+
+/-- … of any other length it is passed whole … -/
+theorem sel_by_position_other (i n : Nat) (xs : List XVal) (ks idx cols : List String) (nc : Nat)
+    (rows : List (List Cell)) (hx : xs.length ≠ n) (hnc : nc ≠ n) (hcols : cols.length ≠ n) (h1 : nc ≠ 1)
+    (h2 : cols.length ≠ 1) :
+    itemByIX i n (.arr1 xs) = .arr1 xs ∧ itemByIX i n (.ser ks xs) = .ser ks xs ∧
+    itemByIX i n (.arr2 nc rows) = .arr2 nc rows ∧
+    itemByIX i n (.frame idx cols rows) = .frame idx cols rows := by
+  simp [itemByIX, hx, hnc, hcols, h1, h2]
+
+/-- … except that a ONE-column DataFrame / 2-d array is squeezed first: with the looped number of rows it is
+indexed by row, otherwise it arrives as its column (a Series / 1-d array — not the object that was passed). -/
+theorem sel_by_position_squeezed (i n : Nat) (idx : List String) (c : String) (rows : List (List Cell)) :
+    (rows.length = n → itemByIX i n (.frame idx [c] rows) = xgetIdx (colOf rows 0) i ∧
+                        itemByIX i n (.arr2 1 rows) = xgetIdx (colOf rows 0) i) ∧
+    (rows.length ≠ n → itemByIX i n (.frame idx [c] rows) = .ser idx (colOf rows 0) ∧
+                        itemByIX i n (.arr2 1 rows) = .arr1 (colOf rows 0)) := by
+  constructor <;> intro h <;> simp [itemByIX, h]
+
+/-- `_item_by_key`: a Series with the looped labels is matched by label, a DataFrame with the looped labels as its
+columns gives the column, as its index the row — in dict, Series and DataFrame loops alike … -/
+theorem sel_by_key_labels (k : String) (keys ks idx cols : List String) (pos : Option Nat) (xs : List XVal)
+    (rows : List (List Cell)) :
+    (sortStr ks = keys → itemByKeyX k keys pos (.ser ks xs) = xgetIdx xs (ks.idxOf k)) ∧
+    (sortStr cols = sortStr keys → itemByKeyX k keys pos (.frame idx cols rows) = .ser idx (colOf rows (cols.idxOf k))) ∧
+    (sortStr cols ≠ sortStr keys → sortStr idx = sortStr keys →
+      itemByKeyX k keys pos (.frame idx cols rows) = .ser cols (rowOf rows (idx.idxOf k))) := by
+  refine ⟨?_, ?_, ?_⟩ <;> intro h <;> simp [itemByKeyX, h]
+
+/-- … and ONLY the DataFrame loop hands the position on: there a list / tuple / 1-d array of the looped length is
+indexed by position and a 2-d array with that many columns gives its column, whereas in a dict or Series loop
+(`pos = none`) lists, tuples and arrays are passed whole whatever their length. -/
+theorem sel_by_key_position (k : String) (keys : List String) (i : Nat) (xs : List XVal) (nc : Nat)
+    (rows : List (List Cell)) (hx : xs.length = keys.length) (hnc : nc = keys.length) :
+    itemByKeyX k keys (some i) (.list xs) = xgetIdx xs i ∧ itemByKeyX k keys (some i) (.tuple xs) = xgetIdx xs i ∧
+    itemByKeyX k keys (some i) (.arr1 xs) = xgetIdx xs i ∧ itemByKeyX k keys (some i) (.arr2 nc rows) = .arr1 (colOf rows i) ∧
+    itemByKeyX k keys Option.none (.list xs) = .list xs ∧ itemByKeyX k keys Option.none (.tuple xs) = .tuple xs ∧
+    itemByKeyX k keys Option.none (.arr1 xs) = .arr1 xs ∧ itemByKeyX k keys Option.none (.arr2 nc rows) = .arr2 nc rows := by
+  simp [itemByKeyX, hx, hnc]
+
+/-- a Series / DataFrame of the looped LENGTH whose labels are not the looped ones makes the DataFrame loop raise
+KeyError (`value[i]` with an integer on string labels), before any leaf call -/
+theorem frame_loop_keyerror (T : LoopTypes) (f : XLeafFn) (idx cols : List String) (rows : List (List Cell))
+    (c : XVal) (args : List XVal) (kw : XKW) (hT : T.frame = true) (hax : axisIs1 kw = false) (hne : cols ≠ [])
+    (hc : keySelRaises (sortStr cols) c = true) :
+    wrappedX T f (.frame idx cols rows) (c :: args) kw = .error .key := by
+  have : cols.isEmpty = false := by cases cols <;> simp_all
+  simp [wrappedX, hT, hax, loopFrame, this, hc]
+
+example : keySelRaises (sortStr ["x", "y"]) (.ser ["p", "q"] [.cell (.int 1), .cell (.int 2)]) = true := by decide +kernel
+
+
+/-! ### closed text helpers: `lower`, `upper`, `strip` (lifting model + leaf model, ASCII) -/
+
+/-- the text helpers never raise (their leaf functions return every non-string as it is) … -/
+theorem text_helper_total (g : String → String) (v : Val) (hv : v.KeysNodup) :
+    ∃ r, wrapped (textLeaf g) v [] [] = .ok r := by
+  rw [lift_total (textLeaf g) v hv [] []]
+  intro p c _
+  cases c <;> simp [textLeaf, mapKW, dropAxis]
+
+/-- … return the same shape (`lift_shape_list / _tuple / _dict` apply as they stand) and map the leaves: a string
+leaf becomes `g` of it, any other leaf is unchanged. -/
+theorem text_helper_leaves (g : String → String) (v r : Val) (p : Path) (c : Cell)
+    (h : wrapped (textLeaf g) v [] [] = .ok r) (hp : v.at p = some (.cell c)) :
+    r.at p = some (match c with | .str s => .cell (.str (g s)) | c => .cell c) := by
+  obtain ⟨y, hy, hr⟩ := lift_leaves (textLeaf g) v [] [] r p c h hp
+  rw [hr]
+  cases c <;> simp_all [textLeaf, mapKW, dropAxis]
+
+/-- `pyg_base.lower / upper / strip` as closed models -/
+theorem lib_lower_spec (v r : Val) (p : Path) (s : String) (h : libLower v = .ok r) (hp : v.at p = some (.cell (.str s))) :
+    r.at p = some (.cell (.str (asciiLower s))) :=
+  text_helper_leaves asciiLower v r p (.str s) h hp
+
+theorem lib_upper_spec (v r : Val) (p : Path) (s : String) (h : libUpper v = .ok r) (hp : v.at p = some (.cell (.str s))) :
+    r.at p = some (.cell (.str (asciiUpper s))) :=
+  text_helper_leaves asciiUpper v r p (.str s) h hp
+
+theorem lib_strip_spec (v r : Val) (p : Path) (s : String) (h : libStrip v = .ok r) (hp : v.at p = some (.cell (.str s))) :
+    r.at p = some (.cell (.str (asciiStrip s))) :=
+  text_helper_leaves asciiStrip v r p (.str s) h hp
+
+/-- handing the leaf function of a text helper any further argument is python's TypeError -/
+theorem text_helper_extra_argument (g : String → String) (a c : Val) (args : List Val) (kw : KW) :
+    textLeaf g a (c :: args) kw = .error .type := by
+  simp [textLeaf]
+
+/-- `lower` / `upper` keep the length and act character by character -/
+theorem lower_upper_chars (cs : List Char) (i : Nat) :
+    (lowerChars cs).length = cs.length ∧ (upperChars cs).length = cs.length ∧
+    (lowerChars cs)[i]? = cs[i]?.map lowerChar ∧ (upperChars cs)[i]? = cs[i]?.map upperChar := by
+  simp [lowerChars, upperChars]
+
+/-- `strip()`: the result is the text without a margin of white space on either side … -/
+theorem strip_margins (cs : List Char) :
+    ∃ a b, cs = a ++ stripChars cs ++ b ∧ (∀ c ∈ a, isPyWs c = true) ∧ (∀ c ∈ b, isPyWs c = true) := by
+  refine ⟨cs.takeWhile isPyWs, (((cs.dropWhile isPyWs).reverse).takeWhile isPyWs).reverse, ?_, ?_, ?_⟩
+  · have h1 := List.takeWhile_append_dropWhile (p := isPyWs) (l := cs)
+    have h2 := List.takeWhile_append_dropWhile (p := isPyWs) (l := (cs.dropWhile isPyWs).reverse)
+    have h3 : cs.dropWhile isPyWs = stripChars cs ++ (((cs.dropWhile isPyWs).reverse).takeWhile isPyWs).reverse := by
+      simp only [stripChars]
+      rw [← List.reverse_append, h2, List.reverse_reverse]
+    rw [List.append_assoc, ← h3, h1]
+  · intro c hc; exact List.all_eq_true.1 List.all_takeWhile c hc
+  · intro c hc; exact List.all_eq_true.1 List.all_takeWhile c (List.mem_reverse.1 hc)
+
+/-- … and neither its first nor its last character is white space (so the margins are maximal). -/
+theorem strip_ends (cs : List Char) (c : Char) :
+    ((stripChars cs).head? = some c → isPyWs c = false) ∧ ((stripChars cs).getLast? = some c → isPyWs c = false) := by
+  constructor
+  · intro h
+    obtain ⟨a, b, hab, _, _⟩ := strip_margins cs
+    have h3 : cs.dropWhile isPyWs = stripChars cs ++ (((cs.dropWhile isPyWs).reverse).takeWhile isPyWs).reverse := by
+      have h2 := List.takeWhile_append_dropWhile (p := isPyWs) (l := (cs.dropWhile isPyWs).reverse)
+      simp only [stripChars]
+      rw [← List.reverse_append, h2, List.reverse_reverse]
+    have hd : (cs.dropWhile isPyWs).head? = some c := by
+      rw [h3]
+      cases hs : stripChars cs with
+      | nil => simp [hs] at h
+      | cons x xs => simp [hs] at h ⊢; exact h
+    have := List.head?_dropWhile_not isPyWs cs
+    rw [hd] at this
+    simpa using this
+  · intro h
+    have : ((cs.dropWhile isPyWs).reverse.dropWhile isPyWs).head? = some c := by
+      simpa [stripChars, List.getLast?_reverse] using h
+    have h2 := List.head?_dropWhile_not isPyWs (cs.dropWhile isPyWs).reverse
+    rw [this] at h2
+    simpa using h2
+
+example : asciiLower "Hello World" = "hello world" ∧ asciiUpper "aBc-9" = "ABC-9" ∧ asciiStrip " \t pad \n" = "pad" ∧
+    libLower (.list [.cell (.str "Ab"), .dict [("k", .tuple [.cell (.int 3), .cell (.str "X y")])]])
+      = .ok (.list [.cell (.str "ab"), .dict [("k", .tuple [.cell (.int 3), .cell (.str "x y")])]]) := by
+  decide +kernel
+
+
+/-! ### failing awaitables (model extension: the statement speaks of results only)
+
+`runEventsF` (PygModel/WaiterF.lean): an awaitable may end with a result or with an exception; `asyncio.gather`
+propagates the first exception raised to the awaiting task at once. -/
+
+/-- **The first failure wins, at once and for good.**  Let the awaitables complete in any order; as long as they
+return results the caller stays suspended or gets the resolved structure, and the FIRST awaitable of the structure
+that raises (`id`, exception `e`) makes `await waiter(...)` raise `e` at that moment — without waiting for the
+awaitables still pending — and whatever happens afterwards (`post`: results, further failures) changes nothing. -/
+theorem waiter_first_failure_wins (w : W) (pre post : List (Nat × Outcome)) (id e : Nat)
+    (hid : id ∈ awaitables w) (hpre : ∀ ev ∈ pre, ev.1 ≠ id ∧ ∃ v, ev.2 = .ok v) :
+    (runEventsF w (pre ++ (id, .error e) :: post)).outcome = some (.error e) := by
+  obtain ⟨hc, hw⟩ := run_ok_invariant id pre (startF w) (startF_clean w) (startF_waits id w hid) hpre
+  simp only [runEventsF, List.foldl_append, List.foldl_cons]
+  rw [completeF_fail id e _ hc hw, fail_absorbing]
+  rfl
+
+/-- hence the outcome DEPENDS on the completion order when two awaitables fail: "whatever order the awaitables
+complete in" does not extend to exceptions (`waiter([a0, a1])`, both failing: the caller sees the exception of
+whichever failed first). -/
+theorem waiter_failure_order_matters :
+    (runEventsF (.list [.aw 0, .aw 1]) [(0, .error 7), (1, .error 8)]).outcome = some (.error 7) ∧
+    (runEventsF (.list [.aw 0, .aw 1]) [(1, .error 8), (0, .error 7)]).outcome = some (.error 8) :=
+  ⟨waiter_first_failure_wins _ [] [(1, .error 8)] 0 7 (by simp [awaitables, awaitablesList]) (by simp),
+   waiter_first_failure_wins _ [] [(0, .error 7)] 1 8 (by simp [awaitables, awaitablesList]) (by simp)⟩
+
+/-- non-vacuity with a non-empty prefix of results: `waiter({'k': (a1, 5), 'j': a2})`, `a2` returns, then `a1` raises -/
+example : (runEventsF (.dict [("k", .tuple [.aw 1, .val (.int 5)]), ("j", .aw 2)])
+    ([(2, .ok (.cell (.int 100)))] ++ (1, .error 9) :: [])).outcome = some (.error 9) :=
+  waiter_first_failure_wins _ _ _ 1 9 (by simp [awaitables, awaitablesList, awaitablesKVs]) (by simp)
 
 end Pyg.Props.C19
